@@ -48,8 +48,10 @@ CLAIMED.update({
     "C20": ("custom marker codecs registered through the real registry in every position of the catalogue, next to unregistered twins, both registration orders", "DESIGN.md C20"),
 })
 
-NA_DEFAULT = "check not built yet in this session (planned, see DESIGN.md)"
-NA = {}
+NA_DEFAULT = "not claimed (see DESIGN.md section 6)"
+NA = {
+    "C14": "solver-based checking of the real code cannot reach it: key order, whitespace, unknown attributes, JSON validity and rejection of malformed text are decided inside go-json-experiment/json + jsontext (reflection-driven (un)marshalling, a streaming tokenizer whose tokens are unexported state of foreign types); the engine cannot execute that code and after stubbing it every clause would be decided by the stub (DESIGN.md section 6). No other technique is substituted.",
+}
 
 checks = []
 for p in props:
